@@ -16,6 +16,15 @@ CHECKS = {
    technique="Coq proof over hand-written Gallina model + lockstep correspondence (vm_compute) + direct oracle"),
 }
 PENDING = {}
+CHECKS["C07"] = dict(
+   text="Executable Gallina model of incremental_state.py (flatten / unflatten / generate_delta / apply_delta / _IncrementalWorkerState incl. None handling, "
+        "tombstones, the empty-dict-is-a-leaf rule) with machine-checked theorems about it (Properties_C07.v). Tied to the code on every run by lockstep "
+        "correspondence on generated histories (keys added/removed, leaf<->dict, {} leaves, in-place mutation of previously reported objects, None) through a real "
+        "worker-side/main-side pair with pickling, and end-to-end through a real multi-worker loader; direct oracle: checkpoint entry == what the worker reported "
+        "after its last yielded batch.",
+   design="DESIGN.md 4 C07",
+   note="Trusted: Coq kernel + vm_compute; leaf values abstracted to tokens compared by value; pickle round-trip as the queue; the Python harness and its encoding of trees.",
+   technique="Coq proof over hand-written Gallina model + lockstep correspondence (vm_compute) + direct oracle")
 props = [json.loads(l) for l in open(os.path.join(V, "properties.jsonl"))]
 checks, na = [], []
 for p in props:
